@@ -77,9 +77,9 @@ Definition e_expect (cfg : config) (opt : bool) (remote : option client) : eclas
   end.
 
 (** known-finding codes (known_findings/C39.json):
-    1  eth gate serves a client the other gates reject, list configured under "whitlist" only
-    2  eth gate rejects a client the other gates accept, whitlist=["*"] next to a non-empty whitelist
-    3  gRPC streaming method ran without passing the gate *)
+    3  gRPC streaming method ran without passing the gate
+    (codes 1 and 2, the eth gate ignoring "whitlist" and its star, are fixed in /repo and
+    no longer classified: an eth/other-gate difference is a plain spec failure) *)
 Definition check_case (c : case) : verdict :=
   match c with
   | CJ cfg reg cl rq cls spy =>
@@ -113,13 +113,7 @@ Definition check_case (c : case) : verdict :=
                    else true
                | None => true
                end in
-      let code :=
-        if s then 0%N
-        else if is_nil (c_whitelist cfg) && eclass_eqb cls OEServed && negb ipg then 1%N
-        else if negb (is_nil (c_whitelist cfg)) && is_star (c_whitlist cfg)
-                && eclass_eqb cls OEForbidden && ipg then 2%N
-        else 0%N in
-      (m, s, code)
+      mk_verdict m s
   | CI cfg cl ipg =>
       let m := Bool.eqb ipg (ip_gate (init cfg) cl) in
       let s := is_loopback cl || negb ipg || ip_allowed cfg cl in
